@@ -21,7 +21,8 @@ def strip_ref(t):
 def as_slice(t):
     """Term of a sub-slice expression -> (base object term, lo, hi, kind) ; lo/hi are terms or None."""
     x = strip_ref(t)
-    if x.op == "call" and x.args[0] in (INDEX, INDEX_MUT) and len(x.args[1]) == 2:
+    if x.op == "call" and x.args[0] in (INDEX, INDEX_MUT, "core::array::<impl core::ops::Index<I> for [T; N]>::index",
+                                         "core::array::<impl core::ops::IndexMut<I> for [T; N]>::index_mut") and len(x.args[1]) == 2:
         base = strip_ref(x.args[1][0])
         r = x.args[1][1]
         if r.op == "agg":
